@@ -291,8 +291,8 @@ def stepCore (s : State) : Op → State × Out
   | .registerCell t n c v =>
     let T := s.trainers t
     if !T.alive then (s, .noref)
-    else if (lookup T.cells n).isSome then (s, .err .ValueError)     -- already the name of an added cell
     else if c ≥ s.topo.length then (s, .noref)                       -- no such cell object
+    else if (lookup T.cells n).isSome then (s, .err .ValueError)     -- already the name of an added cell
     else
       -- add_cell: del_observed(name) (a no-op unless a cell died), cells_[name] = observed_[name] = cell
       let s0 := delObserved s t n
